@@ -282,6 +282,75 @@ pub fn return_closes_upvalues<S: Src>(s: &mut S) {
     s.reached("fx.return_closes_upvalues");
 }
 
+/// two different locals captured (by two closures, in ORDER 0 = ascending / 1 = descending slot
+/// order), then the function returns: both closures keep their own copy of the last value, no
+/// upvalue is left pointing into the dead frame
+pub fn two_locals_then_return<S: Src, const ORDER: u8>(s: &mut S) {
+    let mut rig = Rig::new(14, 4, 1 << 16);
+    let f0 = s.i64();
+    rig.push(Value::Integer(f0));
+    assert!(rig.vm.runtime_data.verif_push_frame(5, 6, 1, None), "harness.frame");
+    let (a, b) = (s.i64(), s.i64());
+    rig.push(Value::Integer(a)); // local 0
+    rig.push(Value::Integer(b)); // local 1
+    let ca = new_closure(&mut rig);
+    let cb = new_closure(&mut rig);
+    let (first, second) = if ORDER == 0 { (0u8, 1u8) } else { (1u8, 0u8) };
+    rig.push(Value::Object(ca));
+    let mut ip = 0usize;
+    assert!(instr::register_upvalue(&mut rig.vm, &[first, 1], &mut ip).is_ok(), "C06.fx.register_ok");
+    rig.push(Value::Object(cb));
+    let mut ip = 0usize;
+    assert!(instr::register_upvalue(&mut rig.vm, &[second, 1], &mut ip).is_ok(), "C06.fx.register_ok");
+    let ua = upvalue_of(ca, 0).unwrap();
+    let ub = upvalue_of(cb, 0).unwrap();
+    assert!(ua != ub, "C06.fx.distinct_variables_get_distinct_upvalues");
+    rig.push(Value::Nil);
+    let mut ip = 50usize;
+    assert!(instr::instr_return(&mut rig.vm, &mut ip).is_ok(), "C06.fx.return_ok");
+    assert!(rig.vm.runtime_data.verif_open_upvalues().is_null(), "C06.fx.return_closes_the_frames_upvalues");
+    // the frame is gone: overwrite the dead slots
+    let _ = rig.vm.runtime_data.verif_stack().set(1, Value::Integer(7777));
+    rig.push(Value::Integer(8888));
+    rig.push(Value::Integer(9999));
+    let va = unsafe { *location_of(ua) };
+    let vb = unsafe { *location_of(ub) };
+    let (ea, eb) = if ORDER == 0 { (a, b) } else { (b, a) };
+    assert!(same(va, Value::Integer(ea)), "C06.fx.first_closure_keeps_its_variable_after_return");
+    assert!(same(vb, Value::Integer(eb)), "C06.fx.second_closure_keeps_its_variable_after_return");
+    std::mem::forget(rig);
+    s.reached("fx.two_locals_then_return");
+}
+
+/// a lower slot stays captured and open while a higher slot is captured and its scope ends
+/// (CloseUpvalue with the higher slot on top): exactly the higher one is closed
+pub fn inner_scope_closes_only_its_variable<S: Src>(s: &mut S) {
+    let mut rig = Rig::new(14, 4, 1 << 16);
+    let (a, b) = (s.i64(), s.i64());
+    rig.push(Value::Integer(a)); // slot 0, outer scope
+    let ca = new_closure(&mut rig);
+    rig.push(Value::Object(ca));
+    let mut ip = 0usize;
+    assert!(instr::register_upvalue(&mut rig.vm, &[0, 1], &mut ip).is_ok(), "C06.fx.register_ok");
+    rig.push(Value::Integer(b)); // slot 1, inner scope (e.g. a loop body)
+    let cb = new_closure(&mut rig);
+    rig.push(Value::Object(cb));
+    let mut ip = 0usize;
+    assert!(instr::register_upvalue(&mut rig.vm, &[1, 1], &mut ip).is_ok(), "C06.fx.register_ok");
+    let ua = upvalue_of(ca, 0).unwrap();
+    let ub = upvalue_of(cb, 0).unwrap();
+    // inner scope ends: slot 1 is the top of the stack
+    assert!(instr::close_upvalues(&mut rig.vm).is_ok(), "C06.fx.close_ok");
+    let base = unsafe { rig.vm.runtime_data.verif_stack().as_slice().as_ptr() };
+    assert!(location_of(ub) as *const Value != unsafe { base.add(1) }, "C06.fx.inner_variable_is_closed_at_its_scope_end");
+    assert!(location_of(ua) as *const Value == base, "C06.fx.outer_variable_stays_shared_while_its_scope_lives");
+    // next iteration overwrites slot 1: the closed copy is unaffected
+    let _ = rig.vm.runtime_data.verif_stack().set(1, Value::Integer(4242));
+    assert!(same(unsafe { *location_of(ub) }, Value::Integer(b)), "C06.fx.each_iteration_captures_a_distinct_variable");
+    std::mem::forget(rig);
+    s.reached("fx.inner_scope_closes_only_its_variable");
+}
+
 /// globals through instr_set_var / instr_read_var
 pub fn globals<S: Src>(s: &mut S) {
     let mut rig = Rig::new(8, 4, 1 << 16);
@@ -338,4 +407,10 @@ crate::harnesses! {
     fx_c06_close_keeps_value_off2 / 18 => close_keeps_value::<_, 2>;
     #[kani::stub(alloc::fmt::format, crate::stub_format)]
     fx_c06_return_closes_upvalues / 18 => return_closes_upvalues;
+    #[kani::stub(alloc::fmt::format, crate::stub_format)]
+    fx_c06_two_locals_ascending_then_return / 18 => two_locals_then_return::<_, 0>;
+    #[kani::stub(alloc::fmt::format, crate::stub_format)]
+    fx_c06_two_locals_descending_then_return / 18 => two_locals_then_return::<_, 1>;
+    #[kani::stub(alloc::fmt::format, crate::stub_format)]
+    fx_c06_inner_scope_closes_only_its_variable / 18 => inner_scope_closes_only_its_variable;
 }
